@@ -114,6 +114,8 @@ package standard
 //@   ensures result == nil ==> calls(SubmitProposal) == 1
 //@
 //@ func (*Service).Propose
+//@   // duty slots come from go-eth2-client, which only delivers duties of the wall-clock epoch requested
+//@   requires duty != nil ==> duty.slot <= 9223372036854775807
 //@   assumes call NodeClient#1 (r, err): err == nil ==> r != nil
 //@   assumes call validateDuty#1 (sl, err): err == dutyErr()
 //@   // failure to obtain graffiti does not skip the proposal
